@@ -28,8 +28,8 @@ THEOREMS = [
     "ord_succ", "nextUp_max", "ord_pred", "ord_mono", "ord_mono_int", "decode_sval", "diff_eq", "zero_iff", "zero_iff_value", "symm",
     "kth_neighbour", "chain_additive", "chain_additive_list", "triangle", "finite_lt_sentinel", "complex_max",
     "complex_zero_iff", "flush_eq", "flush_mono", "flush_collapse", "flush_normal_step", "flush_unspecified",
-    "ulp_normal", "ulp_next_partial", "ulp_next_max", "ulp_prev_partial", "ulp_zero", "ulp_neg", "ulp_inf", "ulp_nan",
-    "ulp_subnormal_is_zero", "ulp_next_fails_subnormal", "ulp_next_repaired", "ulp_witness_binary64", "ulp_witness_binary16",
+    "ulp_normal", "ulp_subnormal", "ulp_next", "ulp_next_max", "ulp_prev", "ulp_zero", "ulp_neg", "ulp_inf", "ulp_nan",
+    "ulp_eq_old_plus_branch", "ulp_old_subnormal_is_zero", "ulp_regression_binary64", "ulp_regression_binary16",
 ]
 SEARCHED = [
     "IEEE addition: x + ulp(x) is computed by hardware/NumPy; the theorems state the exact sum is the neighbour's value "
@@ -47,7 +47,7 @@ TRUSTED = [
 DT = {16: "float16", 32: "float32", 64: "float64"}
 CDT = {32: "complex64", 64: "complex128"}
 P = {16: 11, 32: 24, 64: 53}
-KNOWN_ULP_SIG = "ulp:subnormal-input:ldexp-underflow-returns-zero"
+KNOWN_ULP_SIG = "ulp:subnormal-input:ldexp-underflow-returns-zero"  # the defect fixed by /repo d4402b6; reported again if it returns
 
 
 # --------------------------------------------------------------------------------------
@@ -735,11 +735,12 @@ LEVEL_TEXT = ("Proof. Theorems (Lean kernel; every format with p >= 2, ew >= 2; 
               "hence zero iff equal values, symmetric, k for the k-th neighbour, additive along monotone chains across zero and binade "
               "boundaries, below the 2^width sentinel; complex distance is the max of the component distances; in flush mode the distance is "
               "|flushOrd x - flushOrd y| with flushOrd monotone, sending each subnormal to the nearer of 0 / smallest normal (exact half to the "
-              "normal) and stepping by one on normals; ulp(x) = 2^e for normal x with x + ulp(x) the value of the upper neighbour (2^(emax+1) "
-              "at max), ulp(-x) = ulp(x), ulp(0) = smallest subnormal, ulp(inf) = inf, ulp(nan) = nan; and ulp(x) = +0 for EVERY subnormal x "
-              "(the docstring identity fails there: proved negation + witness, listed finding). The model is a hand port tied by "
+              "normal) and stepping by one on normals; ulp(x) = 2^e for every finite x (the smallest subnormal on zeros and subnormals), the "
+              "exact x + ulp(x) is the value of the upper neighbour for EVERY finite x >= 0 below max (2^(emax+1) at max) and x - ulp(x) the "
+              "lower neighbour for EVERY finite x < 0, ulp(-x) = ulp(x), ulp(inf) = inf, ulp(nan) = nan; the pre-fix function (before /repo "
+              "d4402b6) returned +0 on every subnormal (regression theorems about ulpOld). The model is a hand port tied by "
               "correspondence (float16 exhaustive).")
 LEVEL_NOTE = ("Trusted: Lean kernel (axioms propext, Classical.choice, Quot.sound); the hand model Models/Ulp.lean and the meaning of patterns "
               "(decode/ord/nextUp), both validated against the real code / NumPy each run; IEEE addition for x + ulp(x) is exercised by search, "
-              "the theorem states the exact sum. Partial: ulp identities hold only for normal and zero x (finding listed).")
+              "the theorem states the exact sum.")
 TECHNIQUE = "Lean 4 proof over a bit-pattern model generic in the format + line-protocol correspondence (float16 exhaustive) + nextafter-counting search"
